@@ -27,6 +27,8 @@ func init() {
 }
 
 func runC13(w *World, r *Report) {
+	hrEndpointKeyHasMethod(w, r, "R4")
+	hrDiagnosesSelectedByRequest(w, r, "R4")
 	hrNormalisedPathSpelling(w, r, "R3")
 	bt := w.Fn(pkgConfig, "BuildEndpointPolicyTree")
 	if bt == nil {
